@@ -295,6 +295,7 @@ def enabled(w, guard_used):
             sts.append(("backward", n))
             sts.append(("clear", n))
         sts.append(("fail", n))
+        sts.append(("fail_rej", n))
         sts.append(("fail_fpe", n))
         if k == "ten":
             sts.append(("fail_idx", n))
@@ -319,6 +320,7 @@ def render(st):
         "backward": lambda: "%s.backward()" % st[1],
         "clear": lambda: "%s.clear_graph()" % st[1],
         "fail": lambda: "try: mg.matmul(%s, np.zeros((9, 9)))\nexcept ValueError: pass" % st[1],
+        "fail_rej": lambda: "try: mg.add(%s.view(np.int64), 1, constant=False)  # forward succeeds, the integer result is rejected\nexcept ValueError: pass" % st[1],
         "fail_fpe": lambda: "try:\n    with np.errstate(divide='raise'): mg.divide(%s, 0.0)\nexcept FloatingPointError: pass" % st[1],
         "fail_idx": lambda: "try: %s[7]\nexcept IndexError: pass" % st[1],
         "del": lambda: "del %s" % st[1],
@@ -391,6 +393,16 @@ def apply(w, st):
             except ValueError as e:
                 del e
             w.enter(src if isinstance(src, np.ndarray) else src.data)
+        elif k == "fail_rej":
+            src = s[st[1]]
+            arr = src if isinstance(src, np.ndarray) else src.data
+            try:
+                mg.add(arr.view(np.int64), 1, constant=False)
+                res = ("no_raise", "")
+            except ValueError as e:
+                del e
+            # (the op saw a temporary int64 view and the memory's owner, never `arr` itself: only the owner enters the universe)
+            w.enter(ub(arr))
         elif k == "fail_fpe":
             src = s[st[1]]
             try:
@@ -510,7 +522,7 @@ def explore(wkind, prefix, depth, acc):
             continue
         acc.outcome("ok")
         acc.inc("traces")
-        if any(s[0] in ("backward", "clear", "bwall", "del", "fail", "fail_fpe", "fail_idx") for s in h) and any(s[0] in ("mul", "alias", "out", "tview", "iadd", "iadd_arr", "set_arr", "setshape") for s in h):
+        if any(s[0] in ("backward", "clear", "bwall", "del", "fail", "fail_rej", "fail_fpe", "fail_idx") for s in h) and any(s[0] in ("mul", "alias", "out", "tview", "iadd", "iadd_arr", "set_arr", "setshape") for s in h):
             acc.nontrivial.add(base.stable_hash((wkind, h)))
         if len(acc.samples) < 2 and len(h) == depth:
             acc.samples.append("[%s] " % wkind + "; ".join(render(s) for s in h))
